@@ -3,8 +3,14 @@
 // repo's working tree, 1..4 explicit MetricReader subclasses collected explicitly, driven by the op lines the Lean
 // model driver (lean/Driver/C17.lean) also reads.
 //
-//   obs cfg <D|C,...> ; create <oc|ou|og|sg> ; addcb <instr> <cb> ; rmcb <instr> <cb> ; destroy <instr> ;
+//   obs cfg <D|C,...> ; create <oc|ou|og|sg>[d] ; addcb <instr> <cb> ; rmcb <instr> <cb> ; destroy <instr> ;
 //       grec <instr> <attr> <value> ; collect <r> <cb>=<attr>:<value>,... ...
+//
+// A kind with the suffix `d` is the double flavour (CreateDoubleObservable* / CreateDoubleGauge, ObserverResultT<double>,
+// the double sum / last-value aggregations): the script's value v is observed as v * 2^-10 and printed as v again.
+// Instruments are created through the (name) / (name, description) / (name, description, unit) forms in rotation; the
+// callback rotates the three Observe(value, attributes) forms (KeyValueIterable, container template, initializer list)
+// and `grec` the Record forms with and without a Context.
 //
 // One C function is the callback of every registration; its state pointer identifies the callback `cb`.  The
 // script of a collection says what each callback observes in that cycle; every invocation is logged.
@@ -84,10 +90,13 @@ struct World
   sdkm::MeterContext *ctx = nullptr;
   std::shared_ptr<sdkm::MeterProvider> provider;
   nostd::shared_ptr<apim::Meter> meter;
-  std::vector<std::string> kinds;
+  std::vector<std::string> kinds;  // oc | ou | og | sg
+  std::vector<bool> dbl;           // the double flavour
+  size_t nobs = 0;                 // Observe / Record calls so far: the overload used rotates with it
   std::vector<nostd::shared_ptr<apim::ObservableInstrument>> obs;  // null for sync gauges / destroyed
 #if OPENTELEMETRY_ABI_VERSION_NO >= 2
   std::vector<nostd::unique_ptr<apim::Gauge<int64_t>>> gauges;
+  std::vector<nostd::unique_ptr<apim::Gauge<double>>> dgauges;
 #endif
   CbState cbs[8];
   std::map<int, std::vector<std::pair<long long, long long>>> script;
@@ -178,16 +187,41 @@ static void the_callback(apim::ObserverResult result, void *state)
   CbState *cb = static_cast<CbState *>(state);
   World &w    = *cb->w;
   w.calls.push_back(cb->id);
-  if (!nostd::holds_alternative<nostd::shared_ptr<apim::ObserverResultT<int64_t>>>(result)) return;
-  auto r  = nostd::get<nostd::shared_ptr<apim::ObserverResultT<int64_t>>>(result);
   auto it = w.script.find(cb->id);
   if (it == w.script.end()) return;
-  for (auto &av : it->second)
-  {
-    if (av.first == 0) r->Observe(static_cast<int64_t>(av.second));
-    else
-      with_attrs(av.first, [&](const common::KeyValueIterable &kv) { r->Observe(static_cast<int64_t>(av.second), kv); });
-  }
+  // Observe(value) for the empty set; for the others the three attribute forms of the API rotate: a KeyValueIterable,
+  // a container (the template overload) and an initializer list - they must all report the same measurement
+  auto observe_all = [&](auto r, auto conv) {
+    for (auto &av : it->second)
+    {
+      const long long a = av.first;
+      auto v            = conv(av.second);
+      if (a == 0) { r->Observe(v); continue; }
+      const size_t form = w.nobs++ % 3;
+      if (form == 0) with_attrs(a, [&](const common::KeyValueIterable &kv) { r->Observe(v, kv); });
+      else if (form == 1)
+      {
+        std::string s = "s" + std::to_string(a);
+        std::map<std::string, common::AttributeValue> m{{"k", static_cast<int64_t>(a)}};
+        if (a % 3 == 2) m["z"] = nostd::string_view(s);
+        else if (a % 3 == 0) m["b"] = true;
+        r->Observe(v, m);
+      }
+      else
+      {
+        std::string s = "s" + std::to_string(a);
+        if (a % 3 == 1) r->Observe(v, {{"k", static_cast<int64_t>(a)}});
+        else if (a % 3 == 2) r->Observe(v, {{"z", nostd::string_view(s)}, {"k", static_cast<int64_t>(a)}});
+        else r->Observe(v, {{"k", static_cast<int64_t>(a)}, {"b", true}});
+      }
+    }
+  };
+  if (nostd::holds_alternative<nostd::shared_ptr<apim::ObserverResultT<int64_t>>>(result))
+    observe_all(nostd::get<nostd::shared_ptr<apim::ObserverResultT<int64_t>>>(result),
+                [](long long v) { return static_cast<int64_t>(v); });
+  else if (nostd::holds_alternative<nostd::shared_ptr<apim::ObserverResultT<double>>>(result))
+    observe_all(nostd::get<nostd::shared_ptr<apim::ObserverResultT<double>>>(result),
+                [](long long v) { return static_cast<double>(v) / 1024.0; });
 }
 
 static std::string show_md(const World &w, const sdkm::MetricData &md)
@@ -201,9 +235,30 @@ static std::string show_md(const World &w, const sdkm::MetricData &md)
   else if (d.type_ == sdkm::InstrumentType::kGauge) { kind = "sg"; lv = true; }
   else kind = "?type";
   long long x;
+  const bool dbl = d.value_type_ == sdkm::InstrumentValueType::kDouble;
+  if (dbl) kind += "d";
   std::string s = (d.name_.size() >= 2 && d.name_[0] == 'o' && parse_nat(d.name_.substr(1), x))
                       ? std::to_string(x) + "." + kind
                       : "?name:" + d.name_;
+  if (s[0] != '?')
+  {
+    // created through the (name) / (name, description) / (name, description, unit) form number x % 3
+    const std::string want_desc = x % 3 >= 1 ? "d" + std::to_string(x) : "";
+    const std::string want_unit = x % 3 == 2 ? "By" : "";
+    if (d.description_ != want_desc) s = "?desc:" + d.description_;
+    else if (d.unit_ != want_unit) s = "?unit:" + d.unit_;
+  }
+  auto num = [dbl](const sdkm::ValueType &val) -> std::string {
+    if (dbl)
+    {
+      if (!nostd::holds_alternative<double>(val)) return "?vt";
+      double y = nostd::get<double>(val) * 1024.0;
+      if (std::floor(y) != y || std::fabs(y) > 1e15) return "?inexact";
+      return std::to_string(static_cast<long long>(y));
+    }
+    if (!nostd::holds_alternative<int64_t>(val)) return "?vt";
+    return std::to_string(static_cast<long long>(nostd::get<int64_t>(val)));
+  };
   s += md.aggregation_temporality == sdkm::AggregationTemporality::kDelta
            ? " D "
            : (md.aggregation_temporality == sdkm::AggregationTemporality::kCumulative ? " C " : " ? ");
@@ -220,8 +275,7 @@ static std::string show_md(const World &w, const sdkm::MetricData &md)
       {
         auto &lp = nostd::get<sdkm::LastValuePointData>(p.point_data);
         if (!lp.is_lastvalue_valid_) v = "?invalid";
-        else if (!nostd::holds_alternative<int64_t>(lp.value_)) v = "?vt";
-        else v = std::to_string(static_cast<long long>(nostd::get<int64_t>(lp.value_)));
+        else v = num(lp.value_);
       }
     }
     else
@@ -230,9 +284,8 @@ static std::string show_md(const World &w, const sdkm::MetricData &md)
       else
       {
         auto &sp = nostd::get<sdkm::SumPointData>(p.point_data);
-        if (sp.is_monotonic_ != (kind == "oc")) v = "?mono";
-        else if (!nostd::holds_alternative<int64_t>(sp.value_)) v = "?vt";
-        else v = std::to_string(static_cast<long long>(nostd::get<int64_t>(sp.value_)));
+        if (sp.is_monotonic_ != (kind == "oc" || kind == "ocd")) v = "?mono";
+        else v = num(sp.value_);
       }
     }
     long long key = a == "?" ? -1 : atoll(a.c_str());
@@ -302,7 +355,15 @@ static std::string handle_obs(const std::vector<std::string> &t)
     long long ins = 0, cb = 0;
     if (op.size() == 2 && op[0] == "create")
     {
+      const bool dbl = op[1].size() == 3 && op[1][2] == 'd';
+      if (dbl) op[1].pop_back();
+      if (op[1] != "oc" && op[1] != "ou" && op[1] != "og" && op[1] != "sg") return "bad-op";
       std::unique_ptr<std::string> name(new std::string("o" + std::to_string(w.kinds.size())));
+      const size_t variant = w.kinds.size() % 3;
+      std::unique_ptr<std::string> desc(new std::string("d" + std::to_string(w.kinds.size())));
+      std::unique_ptr<std::string> unit(new std::string("By"));
+      nostd::string_view ds(desc->data(), desc->size()), us(unit->data(), unit->size());
+#define CREATE(F) (variant == 0 ? w.meter->F(nm) : (variant == 1 ? w.meter->F(nm, ds) : w.meter->F(nm, ds, us)))
       nostd::string_view nm(name->data(), name->size());
       nostd::shared_ptr<apim::ObservableInstrument> o;
       if (w.kinds.size() % 2 == 1)
@@ -320,22 +381,26 @@ static std::string handle_obs(const std::vector<std::string> &t)
         std::unique_ptr<sdkm::View> view(new sdkm::View("", "", "", ag));
         w.provider->AddView(std::move(is), std::move(ms), std::move(view));
       }
-      if (op[1] == "oc") o = w.meter->CreateInt64ObservableCounter(nm);
-      else if (op[1] == "ou") o = w.meter->CreateInt64ObservableUpDownCounter(nm);
-      else if (op[1] == "og") o = w.meter->CreateInt64ObservableGauge(nm);
+      if (op[1] == "oc") o = dbl ? CREATE(CreateDoubleObservableCounter) : CREATE(CreateInt64ObservableCounter);
+      else if (op[1] == "ou") o = dbl ? CREATE(CreateDoubleObservableUpDownCounter) : CREATE(CreateInt64ObservableUpDownCounter);
+      else if (op[1] == "og") o = dbl ? CREATE(CreateDoubleObservableGauge) : CREATE(CreateInt64ObservableGauge);
       else if (op[1] == "sg")
       {
 #if OPENTELEMETRY_ABI_VERSION_NO >= 2
         w.gauges.resize(w.kinds.size() + 1);
-        w.gauges[w.kinds.size()] = w.meter->CreateInt64Gauge(nm);
+        w.dgauges.resize(w.kinds.size() + 1);
+        if (dbl) w.dgauges[w.kinds.size()] = CREATE(CreateDoubleGauge);
+        else w.gauges[w.kinds.size()] = CREATE(CreateInt64Gauge);
 #else
         return "bad-op";  // synchronous gauges exist under ABI v2 only
 #endif
       }
       else return "bad-op";
+#undef CREATE
       w.obs.push_back(o);
       outs.push_back("i" + std::to_string(w.kinds.size()));
       w.kinds.push_back(op[1]);
+      w.dbl.push_back(dbl);
     }
     else if (op.size() == 3 && (op[0] == "addcb" || op[0] == "rmcb"))
     {
@@ -364,9 +429,23 @@ static std::string handle_obs(const std::vector<std::string> &t)
         return "bad-op";
 #if OPENTELEMETRY_ABI_VERSION_NO >= 2
       tick();
-      if (a == 0) w.gauges[ins]->Record(static_cast<int64_t>(v));
-      else
-        with_attrs(a, [&](const common::KeyValueIterable &kv) { w.gauges[ins]->Record(static_cast<int64_t>(v), kv); });
+      // Record(value) / Record(value, context) / Record(value, attributes) / Record(value, attributes, context) in rotation
+      const size_t form = w.nobs++ % 2;
+      opentelemetry::context::Context octx{};
+      auto rec = [&](auto &g, auto val) {
+        if (a == 0)
+        {
+          if (form == 0) g->Record(val);
+          else g->Record(val, octx);
+        }
+        else
+          with_attrs(a, [&](const common::KeyValueIterable &kv) {
+            if (form == 0) g->Record(val, kv);
+            else g->Record(val, kv, octx);
+          });
+      };
+      if (w.dbl[ins]) rec(w.dgauges[ins], static_cast<double>(v) / 1024.0);
+      else rec(w.gauges[ins], static_cast<int64_t>(v));
       tick();
       outs.push_back("ok");
 #else
